@@ -1,4 +1,5 @@
 import Sx.Sys
+import Sx.Model.DebugTool
 /-
   `sxmodel`: executes an operation script (the line protocol of harness/sxh.c) on the Lean model
   in closed loop with the Lean chip model and prints the same trace lines the C harness prints.
@@ -249,6 +250,23 @@ def stepLine (s : St) (line : String) : St × Option String :=
         | _ => { s with onCad := r }
       (s, some "oncb")
     else if name = "dump" then (s, some (dumpChip s.sys.world.chip))
+    else if name = "parse" ∨ name = "tool" then
+      -- C20: the argument of debug_registers, given as the hex of its bytes (`-` = empty)
+      let hx := rest.headD "-"
+      let bytes : List Nat := if hx = "-" then [] else
+        (List.range (hx.length / 2)).map fun i => parseHexNat ((hx.drop (2 * i)).take 2).toString
+      let arg : List Char := bytes.map Char.ofNat
+      if name = "parse" then
+        match Tool.parse arg with
+        | .invalid => (s, some "parse rc=-1")
+        | .oob => (s, some "parse OOB")
+        | .ok bs => (s, some s!"parse rc=0 n={bs.length} bytes={hexBytes bs}")
+      else
+        match Tool.toolMain arg with
+        | .failure => (s, some "tool rc=1")
+        | .ub => (s, some "tool OOB")
+        | .lora _ => (s, some "tool rc=0")
+        | .fsk _ => (s, some "tool rc=0")
     else
       match parseApi call with
       | none => (s, some s!"!model unknown op {name}")
